@@ -5136,7 +5136,7 @@ class Symbol:
                         else:
                             num2str = str if base == 10 else hex
                             log.note(
-                                f"indirectly set value {num2str(candidate_val)} on "
+                                f"indirectly set value {candidate_val.str_value} on "
                                 f"{escape(self.name_and_loc)} (by {escape(src.name_and_loc)}) "
                                 f"is not a valid base {base} number."
                             )
